@@ -104,6 +104,8 @@ func runC09(c *Ctx) {
 	c.Rule("O9.5", "transport wiring: every http.Transport / net.Dialer field set in NewTransport / NewDialer is fed from the config field of the same name")
 	c.Rule("O9.6", "one client per instance: the client constructor is called in NewBaseGun's body; registered gun constructors build the gun inside the returned factory closure; Bind replaces the client only on a non-nil shared pool")
 	c.Rule("O9.7", "a raw entry's body stays its own: the request returned by http.ReadRequest reads its body lazily from the reader it was given, so that reader is created for this call (bufio.NewReader / NewReaderSize over the entry's bytes) and used for nothing else - not taken from a pool, a field or a package variable, not Reset or put away afterwards; and BuildRequest of a raw entry parses the entry's bytes on every call instead of handing out a stored request (Request.Clone shares the Body)")
+	c.Rule("O9.8", "an entry's headers are its own: the header map an entry is set up with is a fresh map (or one nothing mutates), never the decoder's running [Header: value] accumulator or a map returned as-is by a merge helper - otherwise entries already decoded pick up headers and a Host that the file defines only later (the rule of O7.5, shared)")
+	c.Borrow("C07", runC07, map[string]string{"O7.5": "O9.8"})
 	c09Precedence(c)
 	c09Enrich(c)
 	c09Target(c)
